@@ -86,6 +86,39 @@ func c01Leaks(sc *sweepCase, fl Flags, out string, j *JNode) []leak {
 	return ls
 }
 
+// memberOrders: the line with its top-level members (and those of attr) in two other orders.
+func memberOrders(root *LNode) []string {
+	perm := func(n *LNode, order []int) *LNode {
+		m := &LNode{Kind: JObj, Lab: n.Lab, Zone: n.Zone}
+		for _, i := range order {
+			m.Keys = append(m.Keys, n.Keys[i])
+			m.KeyLab = append(m.KeyLab, n.KeyLab[i])
+			m.Kids = append(m.Kids, n.Kids[i])
+		}
+		return m
+	}
+	n := len(root.Keys)
+	attrFirst, rev := []int{}, []int{}
+	for i := 0; i < n; i++ {
+		if root.Keys[i] == "attr" {
+			attrFirst = append([]int{i}, attrFirst...)
+		} else {
+			attrFirst = append(attrFirst, i)
+		}
+		rev = append(rev, n-1-i)
+	}
+	// attr first, with the members of attr reversed as well
+	a := perm(root, attrFirst)
+	if at := a.Kids[0]; at.Kind == JObj && len(at.Keys) > 1 {
+		ar := []int{}
+		for i := len(at.Keys) - 1; i >= 0; i-- {
+			ar = append(ar, i)
+		}
+		a.Kids[0] = perm(at, ar)
+	}
+	return []string{a.JSON(), perm(root, rev).JSON()}
+}
+
 func c01Run(c *Ctx) {
 	if !checkPairwise(coveringFlags("a.b")) || !checkPairwise(coveringFlags8("a.b")) {
 		c.HarnessError("covering flag array is not pairwise covering")
@@ -106,6 +139,11 @@ func c01Run(c *Ctx) {
 		}
 		if strings.HasPrefix(sc.Layer, "L0") && (c.Thorough() || (sc.C.Gate == 0 && sc.C.Container == 0)) {
 			corpus = append(corpus, sc.Line)
+			// the same document with its top-level members in other orders (attr first; reversed): a reader that looks at the
+			// raw text of a line before parsing it meets these through the CLI pass
+			if sc.C.Gate == 0 && sc.C.Container == 0 && len(corpus)%3 == 0 {
+				corpus = append(corpus, memberOrders(sc.C.Root)...)
+			}
 		}
 		if c.P.Evaluations < 3 {
 			c.Sample(map[string]any{"slot": sc.C.SlotName, "productions": sc.C.Prods, "line": trunc(sc.Line, 1500)})
